@@ -205,7 +205,7 @@ class DictField(Field):
 
     def __setdefault__(self, cfg: Config) -> None:
         default = self.default
-        if isinstance(default, dict):
+        if default is not None:
             # every configuration gets its own copy of the default, nested containers included
             default = copy.deepcopy(default)
         if isinstance(default, dict) and self._use_proxy:
